@@ -61,6 +61,8 @@ func ExecOp(s *Stores, ctx boltz.MutateContext, op Op) (res execResult) {
 			res.err = s.Notes.Create(ctx, &Note{Id: op.Id, About: cloneStrP(op.Ref)})
 		case StTickets:
 			res.err = s.Tickets.Create(ctx, &Ticket{Id: op.Id, Assignee: cloneStrP(op.Ref)})
+		case StMemos:
+			res.err = s.Memos.Create(ctx, &Memo{Id: op.Id, Topic: cloneStrP(op.Ref)})
 		case StGroups:
 			res.err = s.Groups.Create(ctx, &Group{Id: op.Id})
 		default:
@@ -84,6 +86,8 @@ func ExecOp(s *Stores, ctx boltz.MutateContext, op Op) (res execResult) {
 			res.err = s.Notes.Update(ctx, &Note{Id: op.Id, About: cloneStrP(op.Ref)}, chk)
 		case StTickets:
 			res.err = s.Tickets.Update(ctx, &Ticket{Id: op.Id, Assignee: cloneStrP(op.Ref)}, chk)
+		case StMemos:
+			res.err = s.Memos.Update(ctx, &Memo{Id: op.Id, Topic: cloneStrP(op.Ref)}, chk)
 		case StGroups:
 			res.err = s.Groups.Update(ctx, &Group{Id: op.Id}, chk)
 		default:
@@ -92,7 +96,7 @@ func ExecOp(s *Stores, ctx boltz.MutateContext, op Op) (res execResult) {
 	case "delete":
 		res.err = s.ByName(op.S).DeleteById(ctx, op.Id)
 	case "deleteWhere":
-		field := map[string]string{StNotes: "about", StTickets: "assignee", StBadges: "owner", StPeople: "name", StStaff: "name", StPX: "name"}[op.S]
+		field := map[string]string{StNotes: "about", StTickets: "assignee", StBadges: "owner", StPeople: "name", StStaff: "name", StPX: "name", StMemos: "topic"}[op.S]
 		res.err = s.ByName(op.S).DeleteWhere(ctx, fmt.Sprintf(`%s = "%s"`, field, op.Q))
 	case "addLinks", "removeLinks", "setLinks", "addLink", "removeLink":
 		var lc boltz.LinkCollection = s.People.lcGroups
@@ -225,6 +229,11 @@ func snapEntity(store string, e boltz.Entity) string {
 			return "<nil>"
 		}
 		return simpleSnap(StTickets, v.Id, "", v.Assignee)
+	case *Memo:
+		if v == nil {
+			return "<nil>"
+		}
+		return simpleSnap(StMemos, v.Id, "", v.Topic)
 	case *Group:
 		if v == nil {
 			return "<nil>"
@@ -281,6 +290,12 @@ func findSnap(s *Stores, tx *bbolt.Tx, store, id string) (string, error) {
 			return "", err
 		}
 		return snapEntity(store, e), nil
+	case StMemos:
+		e, found, err := s.Memos.FindById(tx, id)
+		if err != nil || !found {
+			return "", err
+		}
+		return snapEntity(store, e), nil
 	case StGroups:
 		e, found, err := s.Groups.FindById(tx, id)
 		if err != nil || !found {
@@ -309,6 +324,8 @@ func storeOfEntity(e boltz.Entity) string {
 		return StTickets
 	case *Group:
 		return StGroups
+	case *Memo:
+		return StMemos
 	}
 	return "?"
 }
